@@ -1,7 +1,9 @@
 """C17 — the Gantt chart draws exactly the reported assignments at the right place."""
 import copy
 import math
+import os
 import random
+import tempfile
 import warnings
 
 import matplotlib
@@ -76,14 +78,24 @@ def expected(S, mode):
     return bars, texts, rows
 
 
-def check_render(acc, S, sol, mode, show_ind, feats):
+def check_render(acc, S, sol, mode, show_ind, feats, extra=None):
     plt.close("all")
     try:
         with warnings.catch_warnings():
             warnings.simplefilter("ignore")
-            ps.render_gantt_matplotlib(sol, show_plot=False, render_mode=mode, show_indicators=show_ind)
+            kw = dict(extra or {})
+            if mode is not None:
+                kw["render_mode"] = mode
+            else:
+                mode = "Resource"       # the documented default
+            ps.render_gantt_matplotlib(sol, show_plot=False, show_indicators=show_ind, **kw)
         fig = plt.gcf()
         got = read_axes(fig)
+        if kw.get("fig_filename"):
+            sz = os.path.getsize(kw["fig_filename"]) if os.path.exists(kw["fig_filename"]) else 0
+            acc.count(acc.clauses, f"C17.file_written:{'T' if sz > 0 else 'F'}")
+            if not sz:
+                acc.violation("C17.file_not_written", "missing", dict(feats, mode=mode), {"file": kw["fig_filename"]})
     except Exception as exc:  # pylint: disable=broad-except
         plt.close("all")
         acc.violation("C17.exception", "exception", dict(feats, exc=type(exc).__name__, mode=mode), {"msg": str(exc)[:300]})
@@ -178,6 +190,14 @@ def run_render(case):
             for show_ind in ((True, False) if i == 0 else (True,)):
                 check_render(acc, S, sol, mode, show_ind, feats)
                 acc.sigs.add(common.h([common.h(spec), i, mode, show_ind, case["rng"]]))
+        if i <= 1:
+            # the other documented arguments: default render mode (argument omitted), another figure size, a file
+            with tempfile.TemporaryDirectory(prefix="rtmon_c17_") as td:
+                check_render(acc, S, sol, None, True, feats)
+                check_render(acc, S, sol, "Task", False, feats, {"fig_size": (4, 3)})
+                check_render(acc, S, sol, None, False, feats, {"fig_size": (12, 2),
+                                                               "fig_filename": os.path.join(td, "g.svg")})
+                check_render(acc, S, sol, "Task", True, feats, {"fig_filename": os.path.join(td, "g.png")})
         if acc.sample is None:
             acc.sample = {"spec": spec, "solution_tasks": {n: [t["scheduled"], t["start"], t["end"]] for n, t in S["tasks"].items()},
                           "assign": S["assign"], "modes": ["Resource", "Task"]}
